@@ -38,8 +38,13 @@ class Case:
 def generate_cases(rng, n, opts=None, size=(2, 8), tag='gen'):
     cases = []
     stats = {}
+    p_scn = (opts or {}).get('p_scenario', 0.12)
     for i in range(n):
         world = gen_prog.World.generate(rng, kinds=(opts or {}).get('kinds', True))
+        if rng.random() < p_scn:
+            cases.append(Case(gen_prog.scenario(rng, world), world, '%s-scenario-%d' % (tag, i)))
+            stats['scenario'] = stats.get('scenario', 0) + 1
+            continue
         g = gen_prog.Gen(rng, world, opts)
         items = g.gen_items(rng.randint(*size))
         cases.append(Case(items, world, '%s-%d' % (tag, i)))
